@@ -162,11 +162,12 @@ Definition is_hl_failure {A} (r : res hwerr A) : bool :=
 Definition keyframe_rule (w : hwriter) (tick : Z) : bool :=
   match hw_last_keyframe w with None => true | Some lk => 250 <? tick - lk end.
 
-(* the shape of what a call appended, as raw chunks *)
-Definition step_shape (sz : Snap.osize) (w : hwriter) (o : hop) (r : res hwerr unit) (cs : list chunk) : Prop :=
+(* the shape of what a call appended, as raw chunks, and of the state it leaves *)
+Definition step_shape (sz : Snap.osize) (w : hwriter) (o : hop) (r : res hwerr unit) (w' : hwriter)
+           (cs : list chunk) : Prop :=
   match o, r with
   | HSnap tick items, Ok _ =>
-    exists b' e,
+    exists b' e nb,
       add_items (hw_builder w) items = (b', Ok tt)
       /\ (if keyframe_rule w tick
           then snap_encoding (Snap.builder_finish b') = Ok (e, true)
@@ -174,9 +175,15 @@ Definition step_shape (sz : Snap.osize) (w : hwriter) (o : hop) (r : res hwerr u
                          /\ delta_encoding sz d = Ok (e, true))
       /\ cs = [CTick tick (keyframe_rule w tick);
                if keyframe_rule w tick then CSnapshot (hw_buf w ++ e) else CDelta (hw_buf w ++ e)]
+      /\ Snap.snap_recycle (Snap.builder_finish b') = Ok nb
+      /\ hw_snap w' = Snap.builder_finish b' /\ hw_builder w' = nb /\ hw_buf w' = []
+      /\ hw_last_tick w' = tick
   | HSnap tick _, Err HTooLargeSnap => cs = [CTick tick (keyframe_rule w tick)]
+  | HSnap _ _, Err HTooLowTickNumber => cs = [] /\ w' = w
   | HSnap _ _, Err _ => cs = []
-  | HMsg enc, Ok _ => cs = [CMessage (hw_buf w ++ enc)]
+  | HMsg enc, Ok _ =>
+    cs = [CMessage (hw_buf w ++ enc)]
+    /\ hw_snap w' = hw_snap w /\ hw_builder w' = hw_builder w /\ hw_buf w' = [] /\ hw_last_tick w' = hw_last_tick w
   | HMsg _, Err _ => cs = []
   | _, _ => True
   end.
@@ -207,8 +214,7 @@ Theorem hstep_chunks sz w o w' b r :
     /\ forallb chunk_ok cs = true /\ existsb k15_chunk cs = false
     /\ hw_prev w' = next_prev (hw_prev w) cs
     /\ bytes_ok (hw_buf w') = true
-    /\ step_shape sz w o r cs
-    /\ (r = Err HTooLowTickNumber -> w' = w).
+    /\ step_shape sz w o r w' cs.
 Proof.
   intros Hbuf Hop H Hr. destruct o as [tick items|enc]; cbn [hstep hop_ok] in *.
   - (* write_snap *)
@@ -218,7 +224,7 @@ Proof.
       [|injection H as <- <- <-; discriminate Hr].
     set (kf := keyframe_rule w tick) in *.
     destruct (add_items (hw_builder w) items) as [b' [[]|e|s|]] eqn:Eadd.
-    2:{ injection H as <- <- <-. exists []. repeat split; try reflexivity; try assumption. discriminate. }
+    2:{ injection H as <- <- <-. exists []. repeat split; try reflexivity; try assumption. }
     2:{ injection H as <- <- <-. discriminate Hr. }
     2:{ injection H as <- <- <-. discriminate Hr. }
     destruct (write_tick (hw_prev w) kf tick) as [[tb prev']|e|s|] eqn:Etick.
@@ -249,7 +255,7 @@ Proof.
       injection H as <- <- <-. destruct (buf_append_full _ _ _ Hbuf He Ebuf) as [_ Hb'].
       exists [CTick tick kf]. split; [exact Htick|]. split; [cbn; rewrite Hop; reflexivity|].
       split; [reflexivity|]. split; [cbn; exact Hprev'|]. split; [exact Hb'|].
-      split; [reflexivity|discriminate]. }
+      reflexivity. }
     destruct (buf_append_ok _ _ _ Hbuf He Ebuf) as [Hb' [Hlen Hbok]].
     destruct aok; cbn [negb] in H.
     2:{ injection H as <- <- <-. discriminate Hr. }
@@ -271,17 +277,16 @@ Proof.
     split. { cbn [forallb chunk_ok]. rewrite Hop. destruct kf; cbn [chunk_ok]; rewrite Hbok; reflexivity. }
     split. { destruct kf; cbn [existsb k15_chunk]; unfold DEMO_MAX_SIZE; lia. }
     split; [cbn [hw_prev]; rewrite Hprev'; destruct kf; reflexivity|]. split; [reflexivity|].
-    split; [|discriminate].
-    cbn [step_shape]. exists b', e. split; [exact Eadd|].
+    cbn [step_shape]. exists b', e, nb. split; [exact Eadd|].
     fold kf. subst encr. split.
     + destruct kf; [exact Eenc|].
       destruct (Snap.create_raw _ _) as [d|?|?|]; try discriminate. exists d. split; [reflexivity|exact Eenc].
-    + rewrite Hb'. reflexivity.
+    + rewrite Hb'. repeat split; try reflexivity. exact Erec.
   - (* write_msg *)
     unfold write_msg in H.
     destruct (buf_append (hw_buf w) enc) as [buf' [|]] eqn:Ebuf.
     2:{ injection H as <- <- <-. destruct (buf_append_full _ _ _ Hbuf Hop Ebuf) as [_ Hb'].
-        exists []. repeat split; try reflexivity; try assumption. discriminate. }
+        exists []. repeat split; try reflexivity; try assumption. }
     destruct (buf_append_ok _ _ _ Hbuf Hop Ebuf) as [Hb' [Hlen Hbok]].
     destruct (write_message buf') as [mb|?|?|] eqn:Em.
     2:{ injection H as <- <- <-. discriminate Hr. }
@@ -291,7 +296,7 @@ Proof.
     exists [CMessage buf']. split; [cbn [write_chunks write_chunk]; rewrite Em, app_nil_r; reflexivity|].
     split; [cbn [forallb chunk_ok]; rewrite Hbok; reflexivity|].
     split; [cbn [existsb k15_chunk]; unfold DEMO_MAX_SIZE; lia|].
-    split; [reflexivity|]. split; [reflexivity|]. split; [cbn [step_shape]; rewrite Hb'; reflexivity|discriminate].
+    split; [reflexivity|]. split; [reflexivity|]. cbn [step_shape]. rewrite Hb'. repeat split; reflexivity.
 Qed.
 
 (* ---------- a whole history ---------- *)
@@ -300,8 +305,7 @@ Fixpoint hist_shape (sz : Snap.osize) (w : hwriter) (ops : list hop) (cs : list 
   | [] => cs = []
   | o :: r =>
     exists c1 c2, cs = c1 ++ c2
-      /\ step_shape sz w o (snd (hstep sz w o)) c1
-      /\ (snd (hstep sz w o) = Err HTooLowTickNumber -> fst (fst (hstep sz w o)) = w)
+      /\ step_shape sz w o (snd (hstep sz w o)) (fst (fst (hstep sz w o))) c1
       /\ hist_shape sz (fst (fst (hstep sz w o))) r c2
   end.
 
@@ -326,7 +330,7 @@ Proof.
     cbn [hrun] in H. destruct (hstep sz w o) as [[w1 b1] r1] eqn:Es.
     assert (Hr1 : is_hl_failure r1 = false).
     { destruct r1 as [[]|e|s|]; try reflexivity; injection H as <- <- <-; cbn in Hrs; discriminate. }
-    destruct (hstep_chunks sz w o w1 b1 r1 Hbuf Ho Es Hr1) as [cs1 (Hw1 & Hok1 & Hk1 & Hp1 & Hb1 & Hsh1 & Hsame)].
+    destruct (hstep_chunks sz w o w1 b1 r1 Hbuf Ho Es Hr1) as [cs1 (Hw1 & Hok1 & Hk1 & Hp1 & Hb1 & Hsh1)].
     destruct (hrun sz w1 ops) as [[w2 b2] rs2] eqn:Er.
     assert (H' : (w2, b1 ++ b2, r1 :: rs2) = (w', b, rs)) by (destruct r1 as [[]|e|s|]; try exact H; discriminate Hr1).
     injection H' as <- <- <-.
